@@ -52,4 +52,64 @@ def build(model, data):
     return {'call': th.body, 'env': {}, 'custom': custom}
 
 
+def search():
+    """bounded search (an auxiliary proof step of the feeder no longer goes through): histories of two task sequences
+    -- an earlier job A (apply / imap / imap_unordered, still in the cache) and a lazy sequence B that raises at
+    position 0, 1 or 2 -- fed to the real body(); the failure must land on B (its own position), never on A"""
+    import json
+    import sys
+    bad = []
+    for kind_a in ('apply', 'imap', 'imapu'):
+        for fail_at in (0, 1, 2):
+            cache = {}
+            if kind_a == 'apply':
+                a = pool.ApplyResult(cache, None)
+                seq_a = [(pool.TASK, (a._job, None, len, ((),), {}))]
+            else:
+                a = (pool.IMapIterator if kind_a == 'imap' else pool.IMapUnorderedIterator)(cache)
+                seq_a = [(pool.TASK, (a._job, k, len, ((),), {})) for k in range(2)]
+            b = pool.IMapUnorderedIterator(cache)
+
+            def seq_b():
+                for k in range(3):
+                    if k == fail_at:
+                        raise KeyError('the caller\'s iterable failed at item %d' % k)
+                    yield (pool.TASK, (b._job, k, len, ((),), {}))
+            touched = []
+            for name, h in (('A', a), ('B', b)):
+                orig = h._set
+                h._set = (lambda name, orig: (lambda i, obj: (touched.append((name, i)), orig(i, obj))[1]))(name, orig)
+            items = [(seq_a, getattr(a, '_set_length', None)), (seq_b(), b._set_length), None]
+
+            class Q:
+                def get(self):
+                    return items.pop(0)
+
+                def put(self, x):
+                    pass
+            th = pool.TaskHandler.__new__(pool.TaskHandler)
+            th.taskqueue, th.put, th.outqueue, th.pool, th.cache = Q(), (lambda t: None), Q(), [], cache
+            th._state = pool.RUN
+            th.tell_others = lambda: None
+            try:
+                th.body()
+                esc = None
+            except BaseException as e:       # noqa
+                esc = e
+            want = [] if fail_at == 0 else [('B', fail_at)]
+            if esc is not None or touched != want or b._length != fail_at:
+                bad.append('job A (%s) fed, then an imap sequence B whose iterable raises at item %d: results set by the '
+                           'feeder %r (expected %r), B told length %r (expected %d), escaped %r' % (
+                               kind_a, fail_at, touched, want, b._length, fail_at, esc))
+    data = json.load(open(sys.argv[1]))
+    print('replay of %s / %s (bounded search)' % (data['function'], data['obligation']))
+    for x in bad[:4]:
+        print('  violation on real code: ' + x)
+    print('REPRODUCED on real code' if bad else 'not reproduced')
+    sys.exit(1 if bad else 0)
+
+
+import os
+if os.environ.get('PYVC_SEARCH'):
+    search()
 replay_main(build)
